@@ -69,6 +69,7 @@ step touches a pre-existing element; distinct = hash of (pre-population, step pr
             "probe.step_after_failed_step",
             "probe.new_nodes_after_existing",
             "probe.lazy_step_on_nonempty_graph",
+            "probe.step_with_debug_attributes",
         ],
         fault_kinds: vec!["abort_history_at_k", "exec_error", "hash_keys"],
     }
@@ -215,6 +216,10 @@ pub struct Step {
     pub tree: usize,
     pub lazy: bool,
     pub cancel_at: Option<u64>,
+    /// run with ExecutionConfig::debug_attributes(..): only the monotonicity invariants are
+    /// judged then (the exact prediction does not model the added attributes, and strict mode
+    /// legitimately reports a conflict when two statements create one edge)
+    pub debug: bool,
 }
 
 fn render_touch(per_pass: bool, old_nodes: u32, ops: &[Op], stamp: u32) -> String {
@@ -639,6 +644,7 @@ pub struct Stats {
     pub transcript: u64,
     pub polls: u64,
     pub exact_checks: u64,
+    pub debug_steps: u64,
 }
 
 fn pass_count(source: &str) -> usize {
@@ -775,7 +781,15 @@ fn run_history_here(h: &History) -> (Stats, Option<Found>) {
             .filter(|(k, v)| declared.contains(k) && !matches!(v, GVal::GNode(i) if *i as usize >= node_refs.len()))
             .collect();
         let vars = simrun::make_variables(&globs, &node_refs);
-        let config = ExecutionConfig::new(&fns, &vars).lazy(step.lazy);
+        let mut config = ExecutionConfig::new(&fns, &vars).lazy(step.lazy);
+        if step.debug {
+            config = config.debug_attributes(
+                Identifier::from("dbg_loc"),
+                Identifier::from("dbg_var"),
+                Identifier::from("dbg_match"),
+            );
+            st.debug_steps += 1;
+        }
         let flag = match step.cancel_at {
             Some(k) => SimFlag::failing_from(k),
             None => SimFlag::counting(),
@@ -820,7 +834,7 @@ fn run_history_here(h: &History) -> (Stats, Option<Found>) {
         }
         // exact prediction for uncancelled touch steps
         if let Program::Touch { per_pass, ops, stamp, .. } = &step.program {
-            if !cancelled {
+            if !cancelled && !step.debug {
                 let mut model = Model::from_cgraph(&before);
                 let mut t = Touches::default();
                 let matches = if *per_pass { passes[step.tree] } else { 1 };
@@ -914,11 +928,12 @@ pub fn make_history(ctx: &ShardCtx, i: u64) -> History {
         let tree = r.below(2);
         let lazy = r.chance(1, 2);
         let cancel_at = if r.chance(1, 5) { Some(1 + r.below(25) as u64) } else { None };
+        let debug = r.chance(1, 6);
         if r.chance(3, 4) {
             let conflict = r.chance(1, 4);
             let (per_pass, ops) = gen_touch(&mut r, &m, stamp, conflict);
             // advance the optimistic model when the step is expected to succeed uncancelled
-            if !conflict && cancel_at.is_none() {
+            if !conflict && cancel_at.is_none() && !debug {
                 let matches = if per_pass { pass_count(&sources[tree]) } else { 1 };
                 let mut t = Touches::default();
                 let mut m2 = m.clone();
@@ -926,7 +941,7 @@ pub fn make_history(ctx: &ShardCtx, i: u64) -> History {
                     m = m2;
                 }
             }
-            steps.push(Step { program: Program::Touch { per_pass, old_nodes: m.nodes.len() as u32, ops, stamp }, tree, lazy, cancel_at });
+            steps.push(Step { program: Program::Touch { per_pass, old_nodes: m.nodes.len() as u32, ops, stamp }, tree, lazy, cancel_at, debug });
         } else {
             let cfg = gen::GenCfg {
                 graph_node_globals: (m.nodes.len()).min(3),
@@ -937,7 +952,7 @@ pub fn make_history(ctx: &ShardCtx, i: u64) -> History {
             };
             let g = gen::gen_program(&mut Rng::sub(seed, &format!("prog{}", si)), &cfg);
             let globs = gen::supply_globals(&mut Rng::sub(seed, "globals"), &g.needed_globals);
-            steps.push(Step { program: Program::Generated { text: g.prog.render(), globs }, tree, lazy, cancel_at });
+            steps.push(Step { program: Program::Generated { text: g.prog.render(), globs }, tree, lazy, cancel_at, debug });
             // the model image is unknown after a generated step: later touch steps are generated
             // against the stale image and validated at run time by the scratch model only
         }
@@ -1001,7 +1016,7 @@ fn history_json(h: &History) -> J {
                 }),
                 Program::Generated { text, globs } => json!({"generated": {"tsg": text, "globals": simrun::globs_json(globs)}}),
             };
-            json!({"program": prog, "tree": s.tree, "lazy": s.lazy, "cancel_at": s.cancel_at})
+            json!({"program": prog, "tree": s.tree, "lazy": s.lazy, "cancel_at": s.cancel_at, "debug_attributes": s.debug})
         })
         .collect();
     json!({"pre": pre, "sources": h.sources, "steps": steps, "hash_seed": h.hash_seed})
@@ -1058,6 +1073,7 @@ fn history_from_json(j: &J) -> History {
                         tree: s["tree"].as_u64().unwrap_or(0) as usize,
                         lazy: s["lazy"].as_bool().unwrap_or(false),
                         cancel_at: s["cancel_at"].as_u64(),
+                        debug: s["debug_attributes"].as_bool().unwrap_or(false),
                     }
                 })
                 .collect()
@@ -1195,6 +1211,7 @@ pub fn run_shard(ctx: &ShardCtx, rep: &mut Report) {
         rep.add("probe.new_nodes_after_existing", st.new_after_existing);
         rep.add("probe.lazy_step_on_nonempty_graph", st.lazy_nonempty);
         rep.add("exact_model_checks", st.exact_checks);
+        rep.add("probe.step_with_debug_attributes", st.debug_steps);
         rep.run_hashes.push((i, st.transcript));
         if st.touched_old {
             rep.distinct("histories", rng::hash_str(&history_json(&h).to_string()));
